@@ -303,7 +303,7 @@ theorem sockRut_exh {s s' : St} {n : Nat} {t : Option Int} (h : sockRut s n t = 
     s'.dev = [] := by
   simp only [sockRut] at h
   split at h
-  · simp [takeAll] at h
+  · simp [takeBuf] at h
   · split at h <;> simp [takeAll] at h
   · exact sockRead_exh h
 
